@@ -25,9 +25,18 @@ Theorem C06_n_int_with_n_word : forall s w i wmax vals,
 Proof. exact init_size_nint_word. Qed.
 Print Assumptions C06_n_int_with_n_word.
 
-(* PARTIAL: minimality of the inferred n_frac (the binary-expansion loop frac_loop) and exactness of
-   the stored values are not yet theorems; the correspondence run checks them against exact
-   rationals for every generated case, and compares the model on every case. *)
+(* the fraction-bit search (binary expansion of the fractional part) returns, for a value
+   m * 2^e with e < 0, the LEAST n such that the value is a multiple of 2^-n: with n fraction
+   bits the value is stored exactly, with fewer it is not (the search cap and the loop fuel
+   of the model are not reached for fraction lengths up to 198; C06's domain has f <= 20) *)
+Theorem C06_min_frac_bits : forall max_n v, de v < 0 -> - de v <= max_n -> - de v <= 198 ->
+  exists n, frac_bits max_n v = Some n /\ 0 <= n <= - de v /\
+    dm v mod 2^(- de v - n) = 0 /\ (forall j, 0 <= j < n -> dm v mod 2^(- de v - j) <> 0).
+Proof. exact frac_bits_min. Qed.
+Print Assumptions C06_min_frac_bits.
+
+(* PARTIAL: the combination step of best_sizes (maximum over the elements, the n_word / n_frac
+   reconciliation with the cap) is modelled and compared on every case, not stated as a theorem. *)
 Example C06_nonvacuous :
   init_size None None None None 64 (Some [ {| dm := -5; de := -3 |}; {| dm := 3; de := 0 |} ]) = Ok (true, 6, 3) /\
   init_size (Some false) (Some 8) None None 64 (Some [ {| dm := 5; de := -1 |} ]) = Ok (false, 8, 1) /\
